@@ -1008,12 +1008,13 @@ class C12(Property):
             "writer with minimal/all/nonnumeric/random quoting, comma or tab, header, blank lines), svm (LibSVM/Manik rows), arff (typed "
             "table 0-8 x 1-6: numeric/string/date/nominal, missing cells, values with , ' \" \\ space % ? { } non-ASCII; dense or sparse; "
             "Weka/liac canonical writer or a random subset of permitted spellings). csv/svm/arff lines are delivered directly, through "
-            "DiskSink/DiskSource or through _byte_it_. non-trivial: >=2 lines and >=2 pieces (chunk/delim), >=1 row otherwise")
+            "DiskSink/DiskSource, through _byte_it_, or with their terminators kept (LF/CRLF/mixed, blank lines between and after records). non-trivial: >=2 lines and >=2 pieces (chunk/delim), >=1 row otherwise")
     trusted_base = [
         "zlib/gzip: streaming decompression is assumed to be a homomorphism on concatenation (Decomp.Lawful); the harness feeds the model the decompressed pieces its own decompressobj returns",
         "CPython: str.splitlines / bytes.decode / csv.reader / int() / float() / TextIOWrapper(newline=None) are modelled (splitlines, u8step, csvChar, universalNl) and the models are compared with them on every case",
         "text->number conversion (float/int of a token) is CPython's on both sides; the model works on tokens",
-        "ARFF: the Lean theorems cover CSV, LibSVM, Manik and delivery; the ARFF reader is checked differentially only (the harness knows the table it serialised)",
+        "ARFF: the whole reader (attribute header, data section, encoders, missing flags, dense simple path + fallback parser, sparse rows) is modelled (`arffRead`) and compared with ArffReader on every ARFF case, errors included; Lean theorems cover the header, dense and sparse data lines and the respellings; str.lower is modelled on ASCII only, int()/float() acceptance by `parseInt`/`isFloatLit` (ASCII decimal literals, no underscores)",
+        "zlib: Decomp.Lawful (L1 empty input, L2 concatenation) is assumed of decompressobj.decompress; the harness checks on every chunk case that the returned pieces concatenate to the plain stream",
     ]
     assumptions = [
         "values contain no line breaks or tabs (the property's list of value contents: commas, quotes, backslashes, spaces, %, ?, braces, unicode)",
@@ -1023,7 +1024,9 @@ class C12(Property):
     ]
     partial_theorems = {
         "chunk_invariance_partial": "the code as it stands is chunk-invariant only on cuts that split no character, no CR LF pair and do not end in an exotic line boundary; the full theorem chunk_invariance is proved for the repaired loop (fixes/C12-utf8-incremental-decoder.diff, fixes/C12-delim-line-boundaries.diff)",
-        "arff_dense_roundtrip_partial": "ArffLineReader reads back the data lines of the Weka/OpenML writer only when no value holds the other quote character: such lines go to the fallback parser (_dense_advanced), which loses backslashes and raises IndexError (known finding C12-F11, no small repair); attribute header and sparse rows are not modelled in Lean (differential test only)",
+        "arff_dense_roundtrip_partial": "ArffLineReader reads back the data lines of the Weka/OpenML writer only when no value holds the other quote character: such lines go to the fallback parser (_dense_advanced, modelled as advLoop and compared by (A)), which loses backslashes and raises IndexError (known finding C12-F11, no small repair)",
+        "arff_sparse_roundtrip_partial": "ArffLineReader._sparse has no quote handling (C12-F10): proved for bare values (no white space, comma, trailing brace); the sparse missing flag and the header+data composition are not proved (compared by (A) only)",
+        "arff_header_roundtrip": "full for the writer's dialect; hypotheses forced by C12-F8 (no backslash in a quoted name/level) and C12-F9 (a quoted level must not begin with a comma; the theorem also asks that it does not begin with white space, which the code would accept)",
         "csv_roundtrip_partial": "CsvReader strips every line (str.strip) and raises StopIteration on an empty input; the full theorem csv_roundtrip is proved for the repaired reader (fixes/C12-csv-strip.diff, fixes/C12-csv-empty.diff)",
     }
 
@@ -1222,6 +1225,8 @@ class C12(Property):
             impl = run_byte_it(enc, k, data)
             impl_all[str(k)] = impl
             pieces = pieces_of(data, enc, k)
+            if b"".join(pieces) != plain:      # the law assumed of zlib (Decomp.Lawful): pieces concatenate to the plain stream
+                fails.append(F("A", "zlib: the pieces decompressobj(%r) returns for chunk size %d do not concatenate to the plain stream" % (enc, k), "A:zlib-lawful"))
             feats = cut_features(pieces)
             for f in feats:
                 tags.append("cut:" + f)
@@ -1468,9 +1473,143 @@ class C12(Property):
                            % (res[0], res[1], arff_lines(red), arff_fail(red), ", ".join(left) or "none"), sig))
         impl_out = impl if "err" in impl else {"rows": len(impl["ok"])}
         model = None
+        if driver is not None:
+            self._arff_read_model(got_lines["ok"], dense, impl, driver, fails, tags)
+        if driver is not None and case["via"]["mode"] in ("lines", "keepends"):
+            self._arff_header_model(case, lines, driver, fails, tags)
         if driver is not None and dense and case["via"]["mode"] in ("lines", "keepends"):
             model = self._arff_dense_model(case, lines, driver, fails, tags)
+        if driver is not None and not dense and case["via"]["mode"] in ("lines", "keepends"):
+            model = self._arff_sparse_model(case, lines, driver, fails, tags)
         return {"fails": fails, "nontrivial": len(case["table"]["rows"]) >= 1, "tags": sorted(set(tags)), "impl": impl_out, "model": model}
+
+    def _arff_read_model(self, lines, dense, impl, driver, fails, tags):
+        """(A) the whole ArffReader (header, data section, encoders, missing flag, fallback parser, sparse rows)
+        against the Lean model `arffRead` on the very lines coba got"""
+        ans = driver.ask({"op": "arffread", "lines": [cps(l) for l in lines]})["result"]
+
+        def cell(c):
+            if c[0] == "missing":
+                return ["missing"]
+            if c[0] == "num":
+                try:
+                    return ["num", float(uncps(c[1]))]
+                except ValueError:
+                    return ["other", "float() rejects %r" % uncps(c[1])]
+            if c[0] == "str":
+                return ["str", uncps(c[1])]
+            return ["cat", uncps(c[1]), [uncps(x) for x in c[2]]]
+
+        if "err" in ans:
+            model = {"err": ans["err"]}
+        else:
+            r = ans["ok"]
+            if r["kind"] == "empty":
+                model = {"ok": []}
+            elif r["kind"] == "dense":
+                names = [uncps(x) for x in r["names"]]
+                model = {"ok": [{"cells": [cell(c) for c in row["cells"]], "missing": row["missing"], "headers": names} for row in r["rows"]]}
+            else:
+                model = {"ok": [{"cells": {uncps(k): cell(c) for k, c in row["items"]}, "missing": row["missing"]} for row in r["rows"]]}
+        if "err" in impl:
+            got = {"err": impl["err"]}
+        elif impl["ok"] and "headers" in impl["ok"][0]:
+            got = {"ok": [{"cells": x["cells"], "missing": x["missing"], "headers": x["headers"]} for x in impl["ok"]]}
+        else:
+            got = {"ok": [{"cells": x["cells"], "missing": x["missing"]} for x in impl["ok"]]}
+        tags.append("arffread:" + ("error" if "err" in model else "rows"))
+        if got != model:
+            fails.append(F("A", "ArffReader().filter(%r): implementation %r, Lean model arffRead %r" % (lines, got, model), "A:arff-read"))
+
+    def _arff_header_model(self, case, lines, driver, fails, tags):
+        """(A) the spec's header writer (AttrW.line) vs the harness writer, and (C) arff_header_roundtrip:
+        when the theorem's hypotheses hold, the model of ArffAttrReader returns the written names/encoders
+        (the model itself is compared with the real reader by `arffread` on every case)"""
+        t, sp = case["table"], case["sp"]
+        ws = sp.get("attr_ws", " ")
+        qs = sp.get("quote", "single")
+        if len(ws) != 1 or sp.get("force_quote") or qs not in ("single", "double") or sp.get("nominal_pad") or sp.get("nominal_sep", ",") not in (",", ", "):
+            return
+        style = sp.get("style", "weka")
+        q = 39 if qs == "single" else 34
+        also = [39, 34, 37, 92] if style == "weka" else ([39, 34, 92] if qs == "single" else [92])
+        kc, tc = sp.get("kw_case", "lower"), sp.get("type_case", "lower")
+
+        def tok(s, key):
+            w = arff_token(s, sp, key)
+            return {"q": w != s, "f": cps(s)}
+
+        attrs = []
+        for j, c in enumerate(t["cols"]):
+            if c["type"] == "nominal":
+                typ = {"k": "nominal", "pad": len(sp.get("nominal_sep", ",")) - 1, "levels": [tok(v, ("lv", j, k)) for k, v in enumerate(c["levels"])]}
+            elif c["type"] == "date":
+                w = kw("date", tc, sp, ("ty", j))
+                if sp.get("date_fmt"):
+                    w += " " + ('"yyyy-MM-dd"' if sp.get("quote") == "double" else "'yyyy-MM-dd'")
+                typ = {"k": "string", "w": cps(w)}
+            elif c["type"] == "numeric":
+                typ = {"k": "numeric", "w": cps(kw(c.get("word") or sp.get("numeric_word", "numeric"), tc, sp, ("ty", j)))}
+            else:
+                typ = {"k": "string", "w": cps(kw("string", tc, sp, ("ty", j)))}
+            attrs.append({"kw": cps(kw("@attribute", kc, sp, ("at", j))), "sep": ord(ws), "name": tok(c["name"], ("nm", j)), "gap": cps(ws), "typ": typ})
+        ans = driver.ask({"op": "hdrwrite", "q": q, "also": also, "dense": case["dense"], "attrs": attrs})
+        mine = [l.strip() for l in lines if l.strip().lower().startswith("@attribute")]
+        theirs = [uncps(l) for l in ans["lines"]]
+        if mine != theirs:
+            fails.append(F("A", "attribute lines of the spec's writer %r differ from the harness writer %r" % (theirs, mine), "A:arff-header-writer"))
+        elif ans["hyp"]:
+            tags.append("arffheader:theorem-hypotheses-hold")
+            if ans["model"] != {"ok": ans["want"]}:
+                fails.append(F("C", "model: arffAttrs(write attrs) = %r, written %r" % (ans["model"], ans["want"]), "C:arff_header_roundtrip"))
+
+    def _arff_sparse_model(self, case, lines, driver, fails, tags):
+        """(A) ArffLineReader(False,n) + ArffDataReader._sparse per data line vs `arffSparseLine`/`sparseMissing`;
+        (A) the spec's sparse writer vs the harness writer and (C) arff_sparse_roundtrip_partial when the row is bare"""
+        from coba.pipes.readers import ArffLineReader, ArffDataReader
+        t, sp = case["table"], case["sp"]
+        n = len(t["cols"])
+        k = [i for i, l in enumerate(lines) if l.strip().lower() == "@data"][0]
+        data = [l.strip() for l in lines[k + 1:] if l.strip() and not l.strip().startswith("%")]
+        out = []
+        rows_i = 0
+        for line in data:
+            try:
+                impl = {"ok": {int(a): str(b) for a, b in ArffLineReader(False, n).filter(line).items()}}
+            except Exception as e:
+                impl = {"err": errname(e)}
+            impl_missing = [m for _, m in ArffDataReader(False).filter([line])][0]
+            ans = driver.ask({"op": "arffsparseline", "line": cps(line), "n": n})
+            model = {"err": ans["items"]["err"]} if "err" in ans["items"] else {"ok": {int(a): uncps(b) for a, b in ans["items"]["ok"]}}
+            out.append(model)
+            if impl != model:
+                fails.append(F("A", "ArffLineReader(False,%d).filter(%r): implementation %r, model %r" % (n, line, impl, model), "A:arff-sparse-line"))
+            if bool(impl_missing) != bool(ans["missing"]):
+                fails.append(F("A", "ArffDataReader(False) missing flag of %r: implementation %r, model %r" % (line, impl_missing, ans["missing"]), "A:arff-sparse-missing"))
+        sep = sp.get("sparse_sep", ",")
+        if sep in (",", ", ") and not sp.get("sparse_pad"):
+            for i, (row, line) in enumerate(zip(t["rows"], data)):
+                items = []
+                bare = True
+                for j, (c, v) in enumerate(zip(t["cols"], row)):
+                    if sparse_is_default(c, v) and not (sp.get("sparse_explicit_zero") and _dec(sp, "ez", i, j).chance(0.5)):
+                        continue
+                    w = arff_cell(c, v, sp, ("cell", i, j))
+                    raw = "?" if v is None else v
+                    if w != raw:
+                        bare = False
+                    items.append({"d": cps(str(j)), "v": cps(raw)})
+                if not bare:
+                    continue
+                w = driver.ask({"op": "sparsewrite", "pad": len(sep) - 1, "n": n, "items": items})
+                if uncps(w["line"]) != line:
+                    fails.append(F("A", "sparse row of the spec's writer %r differs from the harness writer %r" % (uncps(w["line"]), line), "A:arff-sparse-writer"))
+                elif w["hyp"]:
+                    tags.append("arffsparse:theorem-hypotheses-hold")
+                    want = {"ok": {int(a): uncps(b) for a, b in w["want"]}}
+                    if out[i] != want:
+                        fails.append(F("C", "model: arffSparseLine(write items) = %r, items %r" % (out[i], want), "C:arff_sparse_roundtrip_partial"))
+        return out
 
     def _arff_dense_model(self, case, lines, driver, fails, tags):
         """(A) ArffLineReader on the data lines vs the Lean model of its simple path; (A) the spec's writer vs
